@@ -59,14 +59,22 @@ type state struct {
 	epoch    int
 	havocked string // SMT Bool: a havoc-everything happened on the path to here
 	param    *[]string // non-nil: heap reads become parameters of a recursive spec function
+	// a state that joins paths of different epochs resolves heaps it has not materialised yet through its parents
+	mconds []string
+	msts   []*state
 }
 
 func (s *state) clone() *state {
-	n := &state{h: make(map[string]string, len(s.h)), epoch: s.epoch, havocked: s.havocked}
+	n := &state{h: make(map[string]string, len(s.h)), epoch: s.epoch, havocked: s.havocked, mconds: s.mconds, msts: s.msts}
 	for k, v := range s.h {
 		n.h[k] = v
 	}
 	return n
+}
+
+// adopt makes s the same state as o (used where a callee's or a merged state replaces the current one).
+func (s *state) adopt(o *state) {
+	s.h, s.epoch, s.havocked, s.mconds, s.msts = o.h, o.epoch, o.havocked, o.mconds, o.msts
 }
 
 type Obligation struct {
@@ -400,6 +408,27 @@ func (vc *FnVC) hget(st *state, key string) string {
 	if t, ok := st.h[key]; ok {
 		return t
 	}
+	if st.msts != nil {
+		// join of paths with different epochs: the value is whatever it was on the path taken
+		terms := make([]string, len(st.msts))
+		same := true
+		for i, p := range st.msts {
+			terms[i] = vc.hget(p, key)
+			if terms[i] != terms[0] {
+				same = false
+			}
+		}
+		t := terms[0]
+		if !same {
+			t = terms[len(terms)-1]
+			for i := len(terms) - 2; i >= 0; i-- {
+				t = ite(st.mconds[i], terms[i], t)
+			}
+			t = vc.define("h_"+key, vc.heapSort(key), t)
+		}
+		st.h[key] = t
+		return t
+	}
 	base := fmt.Sprintf("h_%s_e%d", mangle(key), st.epoch)
 	if !vc.declared[base] {
 		vc.declared[base] = true
@@ -486,6 +515,7 @@ func (vc *FnVC) havocAll(st *state, reach string) {
 	oldA := vc.hget(st, "A")
 	epochCounter++
 	st.h = map[string]string{}
+	st.mconds, st.msts = nil, nil
 	st.epoch = epochCounter
 	st.havocked = or(st.havocked, reach)
 	vc.allocGrows(oldA, vc.hget(st, "A"))
@@ -1192,9 +1222,28 @@ func (vc *FnVC) mergeStates(conds []string, sts []*state) *state {
 	sort.Strings(ks)
 	if sameEpoch {
 		out.epoch = sts[0].epoch
-	} else {
+		if sts[0].msts != nil {
+			// all parents share the lazily resolved ancestry only if it is the very same one
+			shared := true
+			for _, s := range sts[1:] {
+				if len(s.msts) != len(sts[0].msts) || (len(s.msts) > 0 && &s.msts[0] != &sts[0].msts[0]) {
+					shared = false
+				}
+			}
+			if shared {
+				out.mconds, out.msts = sts[0].mconds, sts[0].msts
+			} else {
+				sameEpoch = false
+			}
+		}
+	}
+	if !sameEpoch {
 		epochCounter++
 		out.epoch = epochCounter
+		out.mconds = append([]string{}, conds...)
+		for _, s := range sts {
+			out.msts = append(out.msts, s.clone())
+		}
 	}
 	for _, k := range ks {
 		terms := make([]string, len(sts))
@@ -1466,6 +1515,8 @@ func (f *frame) scanCallMods(li *loopInfo, call ssa.CallInstruction) {
 					}
 				}
 			}
+		} else {
+			li.modAll = true
 		}
 		return
 	}
